@@ -1,6 +1,24 @@
 """C01 — TDC q-values: correspondence of Model/Tdc.v with mokapot.qvalues.tdc, qvalues_from_scores,
-dataset._update_labels and LinearPsmDataset._update_labels."""
+dataset._update_labels and LinearPsmDataset._update_labels.
+
+Case format (JSON-able).  Every optional field defaults to the simplest form, so a minimal case is
+{"fn", "scores", "labels", "desc", ...}:
+
+ fn="tdc":    scores, labels, desc, lkind (bool|int|float; float labels are stored doubled: 2 = 1.0),
+              sdtype / ldtype (numpy dtype strings), via (tdc | qfs | qfs-kw), call (kw | pos | allkw | default),
+              layout (plain | strided | negstride | offset | readonly), negzero (decoys of a float labelling as -0.0),
+              hold (None | again | later-call), nojit (run in an interpreter with NUMBA_DISABLE_JIT=1)
+ fn="labels": scores, labels (0/1), desc, thr (decimal string, or None = the default eval_fdr is used), via
+              (_update_labels | linear, plus the historical spellings series, series-int, ...), scont / tcont
+              (array | series), sdtype / tdtype, sindex / tindex (row labels of a Series), call (pos | kw | nodesc),
+              thrtype (float | int | np.float64), layout, hold, history (earlier calls on the same objects),
+              and for via=linear: tcol, dfindex, colorder, copy_data, enforce, extra_cols
+"""
 import itertools
+import json
+import os
+import subprocess
+import sys
 from fractions import Fraction
 
 from .. import lib
@@ -8,20 +26,45 @@ from ..lib import call_impl
 
 PROP = "C01"
 RULE = ("(1) exhaustive: every weak ordering of n<=5 (quick) / n<=6 (thorough) scores x every label vector x both "
-        "directions (n=6: alternating direction); (2) dtype sweep float64/float32/int8/uint8/int64 scores, bool/int/float "
-        "labels; (3) random n<=400 (quick) / 1500 (thorough) with tie density 0..0.9, decoy-only groups, all-decoy "
-        "prefixes; (4) malformed labels (2, -1, 0.5, length mismatch, empty); (5) label vectors from _update_labels and "
-        "LinearPsmDataset._update_labels at decimal thresholds including ones hit exactly by (D+1)/T. "
-        "distinct = distinct case; non-trivial = has a tie group of size>=2 or a decoy ranked above a target")
+        "directions (n=6: alternating direction); (2) dtype sweeps: scores float64/float32/int8..int64/uint8..uint64 "
+        "(integers also at the ends of their range), labels bool / int8..uint64 / float16..float64 (decoys also as -0.0), "
+        "through tdc (desc by keyword, positionally, all-keyword, omitted) and qvalues_from_scores (positional, keyword), "
+        "on contiguous, strided, negative-stride, offset-view and read-only arrays; (3) random n<=400 (quick) / 1500 "
+        "(thorough) with tie density 0..0.9, decoy-only groups, all-decoy prefixes; pre-sorted inputs (ascending, "
+        "descending, targets or decoys first inside every tie group), lengths around the sort-algorithm switch (16/17) "
+        "and powers of two; (4) extreme but exactly representable scores: strictly monotone rescalings to tiny / huge / "
+        "adjacent doubles, +0.0 with -0.0 (a tie), subnormals next to 1e308, adjacent float32 values; (5) malformed "
+        "labels (2, -1, 0.5, length mismatch, empty); (6) call patterns: the same array objects passed twice (second "
+        "result observed), and a result read only after two later calls on other inputs; a sample run in an "
+        "interpreter started with NUMBA_DISABLE_JIT=1; (7) label vectors from _update_labels and "
+        "LinearPsmDataset._update_labels: n<=60 and n<=600 (so that 0.01 and 0.05 accept something), decimal thresholds "
+        "including ones hit exactly by (D+1)/T, just below and just above, eval_fdr / desc omitted, eval_fdr as int or "
+        "numpy.float64; scores and labels independently as numpy array or pandas Series (default, shuffled, reversed, "
+        "offset, string, duplicated row labels; the two Series labelled differently), score dtypes float64 / float32 / "
+        "int, label dtypes bool / int / uint / float / object / nullable boolean / Int64; datasets whose frame has a "
+        "non-default index, another column order, another name for the label column, copy_data=False, one class only "
+        "(enforce_checks=False), and several calls on ONE dataset object; extreme rescalings also here; (8) outside the "
+        "model (property oracle alone, extra_checks): n = 33 000 and 70 000 (quick) / 20 000 .. 131 100 (thorough), i.e. counts past 2^15, 2^16, 2^17. "
+        "Scores of a float dtype numba cannot type (float16, byte-swapped) are generated and reported under a finding key. "
+        "distinct = distinct case; non-trivial = tdc: a tie group of size>=2 or a decoy ranked above a target; labels: "
+        "additionally at least one target is accepted (+1) and at least one is not (0)")
 ASSUMPTIONS = [
     "scores are passed to the model as exact integers (dyadic floats scaled by a common power of two): order and ties exact",
-    "q comparison: |impl - exact| <= 2^-23 * exact (float32 storage of a correctly rounded ratio; sound for n <= 1500)",
+    "q comparison: |impl - exact| <= 2^-50 * exact (a float64 quotient of two exact counts; the float32 tolerance of "
+    "round 1 is gone since 8723652)",
     "thresholds are decimal literals; the model gets the exact decimal, the implementation float(decimal)",
+    "integer scores stay within +-2^24 (tdc turns integer scores into float32; 'small-integer dtype' in the property text)",
+    "the streams of item (8) are larger than the extracted model can sort in reasonable time; they are judged by the "
+    "property's defining formula (an O(n log n) evaluation that is cross-checked against the direct one on every run)",
 ]
 TRUSTED_EXTRA = ["numpy argsort/cumsum/unique and numba are exercised, not modelled"]
 
 KINDS = {"bool": 0, "int": 1, "float": 2}
-TOL = Fraction(1, 2 ** 23)
+TOL = Fraction(1, 2 ** 50)
+DEFAULT_THR = "0.01"
+KEY_F14 = "labels:q-exactly-at-threshold-float32"
+KEY_NUMBA_DTYPE = "tdc:float-scores-numba-cannot-type"
+NUMBA_HOSTILE = ("float16", ">f8", ">f4")
 
 
 # ----------------------------------------------------------------------------- helpers
@@ -30,7 +73,6 @@ def weak_orderings(n):
     if n == 0:
         yield ()
         return
-    seen = set()
     for v in itertools.product(range(n), repeat=n):
         k = max(v) + 1
         if set(v) == set(range(k)):
@@ -46,18 +88,16 @@ def exact_ints(values):
     return [int(f * den) for f in frs]
 
 
-def q_spec(scores_exact, targets, desc):
-    """the defining formula, computed directly"""
+def q_spec_direct(scores_exact, targets, desc):
+    """the defining formula, computed directly (quadratic)"""
     n = len(scores_exact)
     key = [-s if desc else s for s in scores_exact]
-    out = []
     fd = {}
     for k in set(key):
         t = sum(1 for j in range(n) if targets[j] and key[j] <= k)
         d = sum(1 for j in range(n) if not targets[j] and key[j] <= k)
         fd[k] = Fraction(1) if t == 0 else Fraction(d + 1, t)
     ks = sorted(fd)
-    # running minimum from the worst key
     best = {}
     cur = Fraction(1)
     for k in reversed(ks):
@@ -66,30 +106,127 @@ def q_spec(scores_exact, targets, desc):
     return [best[k] for k in key]
 
 
+def q_spec(scores_exact, targets, desc):
+    """the same formula in O(n log n): counts at or better than each distinct threshold, minimum from the worst"""
+    n = len(scores_exact)
+    key = [-s if desc else s for s in scores_exact]
+    order = sorted(range(n), key=key.__getitem__)
+    groups = []
+    t = d = 0
+    i = 0
+    while i < n:
+        k = key[order[i]]
+        while i < n and key[order[i]] == k:
+            if targets[order[i]]:
+                t += 1
+            else:
+                d += 1
+            i += 1
+        groups.append((k, t, d))
+    best = {}
+    cur = Fraction(1)
+    for k, t, d in reversed(groups):
+        f = Fraction(1) if t == 0 else Fraction(d + 1, t)
+        cur = min(cur, f)
+        best[k] = cur
+    return [best[k] for k in key]
+
+
+def _layout(arr, layout, salt=0):
+    """the same values behind a different memory layout"""
+    import numpy as np
+    n = len(arr)
+    if layout in (None, "plain") or arr.ndim != 1:
+        return arr
+    if n == 0:
+        return arr
+    if layout == "strided":
+        big = np.empty(2 * n + 1, dtype=arr.dtype)
+        big[0::2] = np.resize(arr[::-1], n + 1)          # other values of the same kind between the elements
+        big[1::2] = arr
+        return big[1::2]
+    if layout == "negstride":
+        return arr[::-1].copy()[::-1]
+    if layout == "offset":
+        junk = arr[::-1][: min(n, 3)]
+        big = np.concatenate([junk, arr, junk]).astype(arr.dtype)
+        return big[len(junk): len(junk) + n]
+    if layout == "readonly":
+        a = arr.copy()
+        a.flags.writeable = False
+        return a
+    raise ValueError(layout)
+
+
 def np_scores(c):
     import numpy as np
     dt = c.get("sdtype", "float64")
-    return np.array(c["scores"], dtype=dt)
+    return _layout(np.array(c["scores"], dtype=dt), c.get("layout"))
 
 
 def np_labels(c):
     import numpy as np
     k = c["lkind"]
     if k == "bool":
-        return np.array([bool(v) for v in c["labels"]], dtype=bool)
-    if k == "int":
-        return np.array(c["labels"], dtype=c.get("ldtype", "int64"))
-    return np.array([v / 2 for v in c["labels"]], dtype=c.get("ldtype", "float64"))
+        a = np.array([bool(v) for v in c["labels"]], dtype=bool)
+    elif k == "int":
+        a = np.array(c["labels"], dtype=c.get("ldtype", "int64"))
+    else:
+        vals = [v / 2 for v in c["labels"]]
+        if c.get("negzero"):
+            vals = [-0.0 if v == 0 else v for v in vals]
+        a = np.array(vals, dtype=c.get("ldtype", "float64"))
+    return _layout(a, c.get("layout"))
 
 
 # ----------------------------------------------------------------------------- generation
-def _tdc_case(scores, labels, desc, lkind="bool", sdtype="float64", via="tdc", tags=()):
-    return {"fn": "tdc", "scores": list(scores), "labels": list(labels), "desc": bool(desc),
-            "lkind": lkind, "sdtype": sdtype, "via": via, "tags": list(tags)}
+def _tdc_case(scores, labels, desc, lkind="bool", sdtype="float64", via="tdc", tags=(), **opt):
+    c = {"fn": "tdc", "scores": list(scores), "labels": list(labels), "desc": bool(desc),
+         "lkind": lkind, "sdtype": sdtype, "via": via, "tags": list(tags)}
+    for k, v in opt.items():
+        if v is not None:
+            c[k] = v
+    return c
 
 
-def gen(ctx):
-    cases = []
+def _lab_case(scores, labels, desc, thr, via, tags=(), **opt):
+    c = {"fn": "labels", "scores": list(scores), "labels": list(labels), "desc": bool(desc), "thr": thr, "via": via,
+         "tags": list(tags)}
+    for k, v in opt.items():
+        if v is not None:
+            c[k] = v
+    return c
+
+
+RESCALE_MAPS = [("x*2^-60", lambda x: x * 2.0 ** -60), ("x*2^-100", lambda x: x * 2.0 ** -100),
+                ("x*2^-1000", lambda x: x * 2.0 ** -1000), ("x*2^-1070", lambda x: x * 2.0 ** -1070),
+                ("x*2^60", lambda x: x * 2.0 ** 60), ("x*2^900", lambda x: x * 2.0 ** 900),
+                ("1+x*2^-52", lambda x: 1.0 + x * 2.0 ** -52), ("-2-x*2^-51", lambda x: -2.0 + x * 2.0 ** -51),
+                ("2^52+x", lambda x: 2.0 ** 52 + x), ("x*2^-52", lambda x: x * 2.0 ** -52)]
+
+INT_RANGES = {"int8": (-128, 127), "uint8": (0, 255), "int16": (-32768, 32767), "uint16": (0, 65535),
+              "int32": (-2 ** 24, 2 ** 24), "uint32": (0, 2 ** 24), "int64": (-2 ** 24, 2 ** 24), "uint64": (0, 2 ** 24)}
+INT_LABEL_DTYPES = ["int8", "uint8", "int16", "uint16", "int32", "uint32", "int64", "uint64"]
+FLOAT_LABEL_DTYPES = ["float16", "float32", "float64"]
+LAYOUTS = ["plain", "strided", "negstride", "offset", "readonly"]
+
+_NOJIT_CASES = []          # the cases of this run that go to the NUMBA_DISABLE_JIT interpreter (one batch)
+
+
+def _rand_labels(rng, n, lk, p=0.6):
+    return [(1 if rng.random() < p else 0) * (2 if lk == "float" else 1) for _ in range(n)]
+
+
+def _call_form(rng, desc, via):
+    """how desc reaches tdc"""
+    if via != "tdc":
+        return None
+    forms = ["kw", "pos", "allkw"] + (["default"] if desc else [])
+    return rng.choice(forms)
+
+
+def _gen_tdc_old(ctx, cases):
+    """the streams of rounds 1-3, unchanged"""
     nmax = 6 if ctx.thorough else 5
     for n in range(1, nmax + 1):
         flip = 0
@@ -167,16 +304,12 @@ def gen(ctx):
     # strictly monotone rescalings to extreme magnitudes: every value is an exactly representable double, so the
     # order and the tie pattern are those of the base vector (tiny magnitudes, adjacent doubles, huge offsets, subnormals)
     rng = ctx.sub("rescaled")
-    maps = [("x*2^-60", lambda x: x * 2.0 ** -60), ("x*2^-100", lambda x: x * 2.0 ** -100), ("x*2^-1000", lambda x: x * 2.0 ** -1000),
-            ("x*2^-1070", lambda x: x * 2.0 ** -1070), ("x*2^60", lambda x: x * 2.0 ** 60), ("x*2^900", lambda x: x * 2.0 ** 900),
-            ("1+x*2^-52", lambda x: 1.0 + x * 2.0 ** -52), ("-2-x*2^-51", lambda x: -2.0 + x * 2.0 ** -51),
-            ("2^52+x", lambda x: 2.0 ** 52 + x), ("x*2^-52", lambda x: x * 2.0 ** -52)]
     for k in range(240 if ctx.thorough else 60):
         n = rng.randint(2, 60)
         levels = rng.randint(2, n)
         base = [rng.randrange(-levels // 2, levels) for _ in range(n)]
         lab = [1 if rng.random() < 0.6 else 0 for _ in range(n)]
-        name, f = maps[k % len(maps)]
+        name, f = RESCALE_MAPS[k % len(RESCALE_MAPS)]
         sc = [f(float(x)) for x in base]
         assert len(set(sc)) == len(set(base)), name
         via = "qfs" if rng.random() < 0.2 else "tdc"
@@ -206,16 +339,154 @@ def gen(ctx):
         else:
             c = _tdc_case([], [], True, rng.choice(["bool", "int", "float"]), tags=("malformed", kind))
         cases.append(c)
-    # labels
+
+
+def _small_scores(rng, n, sd):
+    """scores that the dtype sd holds exactly"""
+    if sd in INT_RANGES:
+        lo, hi = INT_RANGES[sd]
+        lo, hi = max(lo, -20), min(hi, 40)
+        return [rng.randint(lo, hi) for _ in range(n)]
+    return [rng.randint(-80, 80) / 4 for _ in range(n)]       # quarter-integers: exact in float16/32/64
+
+
+def _gen_tdc_new(ctx, cases):
+    T = ctx.thorough
+    # ---- (a) every score dtype x every label dtype x every way of calling x memory layouts
+    rng = ctx.sub("wb-dtype")
+    sdts = ["float64", "float32", "int8", "uint8", "int16", "uint16", "int32", "uint32", "int64", "uint64"]
+    ldts = [("bool", None)] + [("int", d) for d in INT_LABEL_DTYPES] + [("float", d) for d in FLOAT_LABEL_DTYPES]
+    for sd in sdts:
+        for lk, ld in ldts:
+            for _ in range(10 if T else 2):
+                n = rng.randint(1, 40)
+                sc = _small_scores(rng, n, sd)
+                lab = _rand_labels(rng, n, lk, rng.choice([0.3, 0.6, 0.8]))
+                via = rng.choice(["tdc", "tdc", "tdc", "qfs", "qfs-kw"])
+                desc = True if via != "tdc" else rng.random() < 0.5
+                lay = rng.choice(LAYOUTS)
+                cases.append(_tdc_case(sc, lab, desc, lk, sd, via, ldtype=ld, call=_call_form(rng, desc, via), layout=lay,
+                                       negzero=(True if lk == "float" and rng.random() < 0.4 else None),
+                                       tags=("wb-dtype", "s:" + sd, "l:" + (ld or "bool"), "via=" + via, "layout=" + lay)))
+    # integer score dtypes not swept before, at the ends of their range, with integer / float labels as well
+    rng = ctx.sub("wb-int-extremes")
+    for sd in ("uint16", "uint32", "int64", "uint64", "int8", "int16"):
+        lo, hi = INT_RANGES[sd]
+        for _ in range(10 if T else 4):
+            n = rng.randint(2, 24)
+            pool = [lo, lo, hi, hi, lo + 1, hi - 1, 0] + [rng.randint(lo, hi) for _ in range(6)]
+            sc = [rng.choice(pool) for _ in range(n)]
+            sc[rng.randrange(n)] = lo
+            sc[rng.randrange(n)] = hi
+            lk = rng.choice(["bool", "int", "float"])
+            ld = None if lk == "bool" else rng.choice(INT_LABEL_DTYPES if lk == "int" else FLOAT_LABEL_DTYPES)
+            lab = _rand_labels(rng, n, lk, 0.5)
+            for desc in (True, False):
+                cases.append(_tdc_case(sc, lab, desc, lk, sd, "tdc", ldtype=ld, call=_call_form(rng, desc, "tdc"),
+                                       tags=("wb-dtype", "s:" + sd, "extremes")))
+    # ---- (b) +0.0 and -0.0 are one tie group; subnormals and the largest doubles in one vector; adjacent float32
+    rng = ctx.sub("wb-special")
+    tiny, huge = 5e-324, 1.7976931348623157e308
+    pools = {"negzero": [0.0, -0.0, 0.0, -0.0, tiny, -tiny, 1.0, -1.0],
+             "wide": [0.0, -0.0, tiny, -tiny, 2 * tiny, 2.2250738585072014e-308, -2.2250738585072014e-308, 1.0,
+                      1.0 + 2.0 ** -52, 1.0 - 2.0 ** -53, -1.0, huge, -huge, huge / 2, 2.0 ** 53, 2.0 ** 53 + 2, 1e-300, -1e300]}
+    for name, pool in pools.items():
+        for _ in range(120 if T else 20):
+            n = rng.randint(2, 30)
+            sc = [rng.choice(pool) for _ in range(n)]
+            if name == "negzero":
+                sc[rng.randrange(n)] = 0.0
+                sc[(rng.randrange(n - 1) + 1 + sc.index(0.0)) % n] = -0.0
+            lab = _rand_labels(rng, n, "bool", 0.6)
+            via = rng.choice(["tdc", "tdc", "qfs"])
+            desc = True if via != "tdc" else rng.random() < 0.5
+            cases.append(_tdc_case(sc, lab, desc, "bool", "float64", via, call=_call_form(rng, desc, via),
+                                   layout=rng.choice(LAYOUTS), tags=("wb-special", name)))
+    for _ in range(40 if T else 12):
+        n = rng.randint(2, 40)
+        base = rng.choice([1.0, -3.0, 1024.0, 2.0 ** -100])
+        lv = rng.randint(2, 6)
+        sc = [base * (1.0 + rng.randrange(lv) * 2.0 ** -23) for _ in range(n)]       # exact float32 neighbours
+        lab = _rand_labels(rng, n, "bool", 0.6)
+        desc = rng.random() < 0.5
+        cases.append(_tdc_case(sc, lab, desc, "bool", "float32", "tdc", call=_call_form(rng, desc, "tdc"),
+                               tags=("wb-special", "adjacent-float32")))
+    # ---- (c) pre-sorted inputs, fixed order inside tie groups, lengths around algorithm switches
+    rng = ctx.sub("wb-sorted")
+    sizes = [15, 16, 17, 31, 32, 33, 63, 64, 65, 127, 128, 129, 255, 256, 257] + ([511, 512, 513, 1023, 1024, 1025] if T else [])
+    for n in sizes:
+        for arrangement in ("asc", "desc", "asc-targets-first", "desc-decoys-first", "shuffled"):
+            tie = rng.choice([0.0, 0.5, 0.9])
+            levels = max(1, int(n * (1 - tie)))
+            rows = [(float(rng.randrange(levels)), 1 if rng.random() < 0.6 else 0) for _ in range(n)]
+            if arrangement == "asc":
+                rows.sort(key=lambda r: r[0])
+            elif arrangement == "desc":
+                rows.sort(key=lambda r: -r[0])
+            elif arrangement == "asc-targets-first":
+                rows.sort(key=lambda r: (r[0], -r[1]))
+            elif arrangement == "desc-decoys-first":
+                rows.sort(key=lambda r: (-r[0], r[1]))
+            desc = rng.random() < 0.5
+            sd = rng.choice(["float64", "float64", "float32", "int32"])
+            sc = [int(r[0]) if sd == "int32" else r[0] for r in rows]
+            cases.append(_tdc_case(sc, [r[1] for r in rows], desc, "bool", sd, "tdc", call=_call_form(rng, desc, "tdc"),
+                                   tags=("wb-sorted", arrangement, f"tie={tie}")))
+    # ---- (d) call patterns: same objects twice; result read after later calls
+    rng = ctx.sub("wb-hold")
+    for k in range(300 if T else 40):
+        n = rng.randint(1, 50)
+        sd = rng.choice(["float64", "float64", "float32", "int16", "uint8"])
+        lk = rng.choice(["bool", "bool", "int", "float"])
+        sc = _small_scores(rng, n, sd)
+        lab = _rand_labels(rng, n, lk, 0.6)
+        via = rng.choice(["tdc", "tdc", "qfs"])
+        desc = True if via != "tdc" else rng.random() < 0.5
+        hold = ("again", "later-call")[k % 2]
+        cases.append(_tdc_case(sc, lab, desc, lk, sd, via, call=_call_form(rng, desc, via), hold=hold,
+                               layout=rng.choice(["plain", "plain", "strided", "negstride"]),
+                               tags=("wb-hold", "hold=" + hold)))
+    # ---- (e) the same kind of input in an interpreter started with NUMBA_DISABLE_JIT=1
+    rng = ctx.sub("wb-nojit")
+    del _NOJIT_CASES[:]
+    for k in range(400 if T else 50):
+        n = rng.randint(1, 24)
+        sd = rng.choice(["float64", "float32", "int8", "uint16"])
+        lk = rng.choice(["bool", "int", "float"])
+        levels = rng.randint(1, n)
+        sc = [rng.randrange(levels) for _ in range(n)] if sd in INT_RANGES else [float(rng.randrange(levels)) / 4 for _ in range(n)]
+        lab = _rand_labels(rng, n, lk, rng.choice([0.2, 0.6, 0.9]))
+        via = rng.choice(["tdc", "tdc", "qfs"])
+        desc = True if via != "tdc" else rng.random() < 0.5
+        c = _tdc_case(sc, lab, desc, lk, sd, via, call=_call_form(rng, desc, via), nojit=True, tags=("wb-nojit",))
+        _NOJIT_CASES.append(c)
+        cases.append(c)
+    # ---- (f) float dtypes numba cannot type (reported under a finding key while /repo rejects them)
+    rng = ctx.sub("wb-numba-dtype")
+    for sd in NUMBA_HOSTILE:
+        for _ in range(6 if T else 3):
+            n = rng.randint(1, 20)
+            sc = _small_scores(rng, n, sd)
+            desc = rng.random() < 0.5
+            cases.append(_tdc_case(sc, _rand_labels(rng, n, "bool"), desc, "bool", sd, "tdc", tags=("wb-numba-dtype", "s:" + sd)))
+
+
+SERIES_LABEL_DTYPES = ["bool", "int64", "int8", "uint8", "float64", "float32", "object", "boolean", "Int64"]
+ARRAY_LABEL_DTYPES = ["bool", "int64", "int8", "uint8", "int32", "uint16", "float64", "float32", "float16"]
+INDEX_KINDS = ["default", "shuffled", "reversed", "offset", "strings", "dups"]
+THRS = ["0.01", "0.05", "0.1", "0.2", "0.25", "0.3", "0.5", "0.125", "0.4", "0.75", "1.0", "0.333", "0.0"]
+TCOLS = ["target", "Label", "label", "is_target", "scores", "targets", "qvals", 0]
+
+
+def _gen_labels_old(ctx, cases):
     rng = ctx.sub("labels")
-    thrs = ["0.01", "0.05", "0.1", "0.2", "0.25", "0.3", "0.5", "0.125", "0.4", "0.75", "1.0", "0.333", "0.0"]
     nl = 1200 if ctx.thorough else 300
     for k in range(nl):
         n = rng.randint(1, 60)
         levels = rng.randint(1, n)
         sc = [float(rng.randrange(levels)) for _ in range(n)]
         lab = [1 if rng.random() < 0.7 else 0 for _ in range(n)]
-        thr = rng.choice(thrs)
+        thr = rng.choice(THRS)
         via = rng.choice(["_update_labels", "_update_labels", "linear", "series", "series-int", "series-float", "array-int", "array-float"])
         cases.append({"fn": "labels", "scores": sc, "labels": lab, "desc": rng.random() < 0.5 if via != "linear" else rng.random() < 0.5,
                       "thr": thr, "via": via, "tags": ["labels", via, "thr=" + thr]})
@@ -230,16 +501,188 @@ def gen(ctx):
         for via in ("_update_labels", "linear"):
             cases.append({"fn": "labels", "scores": sc, "labels": lab, "desc": True, "thr": thr, "via": via,
                           "tags": ["labels", via, "thr-exact-hit", "thr=" + thr]})
+
+
+def _label_scores(rng, n, sd, shape):
+    """(scores, description) for the label streams: scores exactly representable in dtype sd"""
+    levels = rng.randint(1, n)
+    if sd in INT_RANGES:
+        lo, hi = INT_RANGES[sd]
+        if levels > hi - lo:
+            return [rng.randint(lo, hi) for _ in range(n)]
+        off = rng.choice([0, lo, hi - levels + 1])
+        return [off + rng.randrange(levels) for _ in range(n)]
+    if sd == "float32":
+        return [rng.randrange(levels) / 4 - 3 for _ in range(n)]
+    if shape == "rescaled":
+        name, f = rng.choice(RESCALE_MAPS)
+        return [f(float(rng.randrange(-(levels // 2) - 1, levels))) for _ in range(n)]
+    if shape == "noise":
+        out = []
+        for _ in range(n):
+            out.append(rng.choice(out) if out and rng.random() < 0.3 else rng.gauss(0, 1))
+        return out
+    return [float(rng.randrange(levels)) for _ in range(n)]
+
+
+def _accepting_labels(rng, n, sc, desc):
+    """labels with a target-rich top, so that small thresholds accept something"""
+    order = sorted(range(n), key=lambda j: -sc[j] if desc else sc[j])
+    lab = [0] * n
+    top = rng.randint(n // 4, max(n // 4, (3 * n) // 4))
+    for r, j in enumerate(order):
+        p = 0.985 if r < top else 0.45
+        lab[j] = 1 if rng.random() < p else 0
+    return lab
+
+
+def _label_opts(rng, via, n, lab):
+    """containers, dtypes, row labels, call form"""
+    o = {}
+    o["scont"] = rng.choice(["array", "series"])
+    o["tcont"] = rng.choice(["array", "series"]) if via == "_update_labels" else None
+    o["sdtype"] = rng.choice(["float64", "float64", "float64", "float32", "int32", "int64", "int16", "uint8"])
+    if via == "_update_labels":
+        o["tdtype"] = rng.choice(SERIES_LABEL_DTYPES if o["tcont"] == "series" else ARRAY_LABEL_DTYPES)
+        if o["tcont"] == "series":
+            o["tindex"] = rng.choice(INDEX_KINDS)
+    else:
+        o["tdtype"] = rng.choice(["bool", "bool", "int64", "int8", "float64", "object"])
+        o["tcol"] = rng.choice(TCOLS)
+        o["dfindex"] = rng.choice(INDEX_KINDS)
+        o["colorder"] = rng.randrange(6)
+        o["copy_data"] = rng.random() < 0.5
+        o["extra_cols"] = rng.randint(0, 2)
+        both = any(lab) and not all(lab)
+        o["enforce"] = (rng.random() < 0.7) if both else False
+    if o["scont"] == "series":
+        o["sindex"] = rng.choice(INDEX_KINDS)
+    o["call"] = rng.choice(["pos", "kw", "kw"])
+    o["layout"] = rng.choice(["plain", "plain", "strided", "negstride", "readonly"]) if o["scont"] == "array" else None
+    return o
+
+
+def _gen_labels_new(ctx, cases):
+    T = ctx.thorough
+    rng = ctx.sub("wb-labels")
+    for k in range(3000 if T else 420):
+        big = k % 3 == 0
+        n = rng.randint(100, 600) if big else rng.randint(1, 60)
+        via = rng.choice(["_update_labels", "_update_labels", "linear"])
+        desc = rng.random() < 0.5
+        shape = rng.choice(["levels", "levels", "noise", "rescaled"])
+        lab0 = [1 if rng.random() < 0.7 else 0 for _ in range(n)]
+        o = _label_opts(rng, via, n, lab0)
+        sc = _label_scores(rng, n, o["sdtype"], shape)
+        lab = _accepting_labels(rng, n, sc, desc) if big else lab0
+        if via == "linear":
+            both = any(lab) and not all(lab)
+            if not both:
+                o["enforce"] = False
+        thr = rng.choice(THRS[:4] + THRS if big else THRS)
+        r = rng.random()
+        if r < 0.12 and desc:
+            o["call"] = "nodesc"                       # desc left to its default (True)
+        r = rng.random()
+        if r < 0.15:
+            thr = None                                 # eval_fdr left to its default (0.01)
+            if o["call"] == "pos":
+                o["call"] = "kw"
+        elif r < 0.25 and thr in ("0.0", "1.0"):
+            o["thrtype"] = "int"
+        elif r < 0.4:
+            o["thrtype"] = "np.float64"
+        o["hold"] = rng.choice([None, None, None, "again", "later-call"])
+        if o["tdtype"].startswith("float") and rng.random() < 0.4:
+            o["negzero"] = True
+        if rng.random() < (0.5 if via == "linear" else 0.15):
+            hist = []
+            for _ in range(rng.randint(1, 3)):
+                hs = [float(rng.randrange(max(1, n // 2))) for _ in range(n)]
+                hist.append({"scores": hs, "thr": rng.choice(THRS), "desc": rng.random() < 0.5})
+            o["history"] = hist
+        tags = ["wb-labels", "via=" + via, "s=" + o["scont"] + ":" + o["sdtype"], "thr=" + str(thr), "shape=" + shape,
+                "n>=100" if big else "n<=60"]
+        if via == "_update_labels":
+            tags.append("t=" + o["tcont"] + ":" + o["tdtype"])
+        else:
+            tags += ["t=frame:" + o["tdtype"], "tcol=" + str(o["tcol"]), "dfindex=" + o["dfindex"],
+                     "copy_data=" + str(o["copy_data"]), "enforce=" + str(o["enforce"])]
+        if o.get("negzero"):
+            tags.append("decoys=-0.0")
+        for key in ("sindex", "tindex"):
+            if o.get(key):
+                tags.append(key + "=" + o[key])
+        tags.append("call=" + o["call"])
+        if o.get("hold"):
+            tags.append("hold=" + o["hold"])
+        if o.get("history"):
+            tags.append("history")
+        if o.get("thrtype"):
+            tags.append("thrtype=" + o["thrtype"])
+        cases.append(_lab_case(sc, lab, desc, thr, via, tags, **o))
+    # thresholds hit exactly by (D+1)/T, and the decimals right below / above, both directions, every container
+    rng = ctx.sub("wb-thr-hit")
+    for (d, t) in [(0, 20), (1, 20), (0, 10), (1, 10), (0, 5), (2, 10), (0, 4), (1, 8), (0, 100), (4, 100), (0, 2), (2, 30),
+                   (0, 50), (1, 100), (0, 200), (9, 100), (0, 25), (3, 16), (0, 8), (1, 4)]:
+        fr = Fraction(d + 1, t)
+        hit = str(float(fr))
+        if Fraction(hit) != fr:
+            continue
+        for thr, kind in ((hit, "hit"), ("%.7f" % (float(fr) - 1e-6), "below"), ("%.7f" % (float(fr) + 1e-6), "above")):
+            for rep in range(3 if T else 1):
+                desc = rng.random() < 0.5
+                sgn = 1.0 if desc else -1.0
+                sc = [sgn * (100.0 - j) for j in range(t)] + [sgn * (50.0 - j) for j in range(d + 3)] + [sgn * 10.0, sgn * 9.0]
+                lab = [1] * t + [0] * (d + 3) + [1, 1]
+                perm = list(range(len(sc)))
+                rng.shuffle(perm)
+                sc, lab = [sc[j] for j in perm], [lab[j] for j in perm]
+                via = rng.choice(["_update_labels", "linear"])
+                o = _label_opts(rng, via, len(sc), lab)
+                o["sdtype"] = rng.choice(["float64", "float32", "int32"])
+                if o["sdtype"] == "int32":
+                    sc = [int(v) for v in sc]
+                cases.append(_lab_case(sc, lab, desc, thr, via, ["wb-labels", "wb-thr-" + kind, "via=" + via, "thr=" + thr], **o))
+    # eval_fdr omitted with enough targets on top for 0.01 to accept some
+    rng = ctx.sub("wb-thr-default")
+    for k in range(24 if T else 8):
+        t = rng.choice([100, 150, 250, 400])
+        d = rng.randint(0, 3)
+        desc = rng.random() < 0.5
+        sgn = 1.0 if desc else -1.0
+        sc = [sgn * (1000.0 - j) for j in range(t)] + [sgn * (500.0 - j // 2) for j in range(d + 40)]
+        lab = [1] * t + [0] * d + [rng.randint(0, 1) for _ in range(40)]
+        perm = list(range(len(sc)))
+        rng.shuffle(perm)
+        sc, lab = [sc[j] for j in perm], [lab[j] for j in perm]
+        via = ("_update_labels", "linear")[k % 2]
+        o = _label_opts(rng, via, len(sc), lab)
+        o["sdtype"] = "float64"
+        o["call"] = "nodesc" if desc and rng.random() < 0.5 else "kw"
+        cases.append(_lab_case(sc, lab, desc, None, via, ["wb-labels", "wb-thr-default", "via=" + via], **o))
+
+
+def gen(ctx):
+    cases = []
+    _gen_tdc_old(ctx, cases)
+    _gen_tdc_new(ctx, cases)
+    _gen_labels_old(ctx, cases)
+    _gen_labels_new(ctx, cases)
     return cases
 
 
 # ----------------------------------------------------------------------------- model side
+def _thr_fraction(c):
+    return Fraction(c["thr"] if c.get("thr") is not None else DEFAULT_THR)
+
+
 def encode(c):
     ex = exact_ints(c["scores"])
     if c["fn"] == "tdc":
         return "c01.tdc %s %s %d %s" % (lib.b(c["desc"]), lib.lst(ex), KINDS[c["lkind"]], lib.lst(c["labels"]))
     return "c01.labels %s %s %s %s" % (lib.b(c["desc"]), lib.lst(ex), lib.lst(c["labels"], lib.b),
-                                       lib.q(Fraction(c["thr"])))
+                                       lib.q(_thr_fraction(c)))
 
 
 def decode(c, t):
@@ -249,49 +692,196 @@ def decode(c, t):
 
 
 # ----------------------------------------------------------------------------- implementation side
-def _impl_tdc(c):
+def _other_inputs(sc, lb):
+    """two further inputs for the 'result read after later calls' pattern: same length, and longer"""
     import numpy as np
+    n = len(sc)
+    a1, b1 = sc[::-1].copy(), (lb[::-1].copy() if len(lb) == n else lb.copy())
+    a2 = np.concatenate([sc, sc[:3], sc[:2]])
+    b2 = np.concatenate([lb, lb[:3], lb[:2]]) if len(lb) == n else lb
+    return [(a1, b1), (a2, b2)]
+
+
+def _one_dim(r):
+    """one value per PSM: anything that is not a flat sequence is not 'the q-value / label of each PSM in input order'"""
+    import numpy as np
+    if np.ndim(r) != 1:
+        raise ValueError("result has %d dimensions" % np.ndim(r))
+    return r
+
+
+def _impl_tdc(c):
     from mokapot import qvalues
     sc, lb = np_scores(c), np_labels(c)
-    if c.get("via") == "qfs":
-        q = qvalues.qvalues_from_scores(sc, lb, "tdc")
-    else:
-        q = qvalues.tdc(sc, lb, desc=c["desc"])
-    return [Fraction(float(v)) for v in q]
+    via, call, desc = c.get("via", "tdc"), c.get("call", "kw"), c["desc"]
+
+    def run(a, b):
+        if via == "qfs":
+            return qvalues.qvalues_from_scores(a, b, "tdc")
+        if via == "qfs-kw":
+            return qvalues.qvalues_from_scores(scores=a, targets=b, qvalue_algorithm="tdc")
+        if call == "pos":
+            return qvalues.tdc(a, b, desc)
+        if call == "allkw":
+            return qvalues.tdc(scores=a, target=b, desc=desc)
+        if call == "default":
+            assert desc is True
+            return qvalues.tdc(a, b)
+        return qvalues.tdc(a, b, desc=desc)
+
+    hold = c.get("hold")
+    q = run(sc, lb)
+    if hold == "again":                      # the very same objects again; the second answer is the one observed
+        q = run(sc, lb)
+    elif hold == "later-call":               # the answer is read only after two more calls on other inputs
+        for a, b in _other_inputs(sc, lb):
+            try:
+                run(a, b)
+            except Exception:
+                pass
+    return [Fraction(float(v)) for v in _one_dim(q)]
+
+
+_OLD_VIA = {"series": ("series", "series", "bool"), "series-int": ("series", "series", "int64"),
+            "series-float": ("series", "series", "float64"), "array-int": ("array", "array", "int64"),
+            "array-float": ("array", "array", "float64")}
+
+
+def _index(kind, n, salt):
+    """row labels of a Series / DataFrame; deterministic from (kind, n, salt)"""
+    import random
+    r = random.Random(1000003 * n + salt)
+    if kind in (None, "default"):
+        return None
+    if kind == "shuffled":
+        p = list(range(n))
+        r.shuffle(p)
+        return p
+    if kind == "reversed":
+        return list(range(n - 1, -1, -1))
+    if kind == "offset":
+        return list(range(7 + salt, 7 + salt + n))
+    if kind == "strings":
+        p = ["r%d" % j for j in range(n)]
+        r.shuffle(p)
+        return p
+    if kind == "dups":
+        return [j // 2 for j in range(n)] if salt % 2 else [0] * n
+    raise ValueError(kind)
+
+
+def _target_values(tg, tdtype, negzero=False):
+    """the label vector tg (bools) in the requested element type, as a list or numpy array"""
+    import numpy as np
+    if tdtype == "bool":
+        return np.array([bool(v) for v in tg], dtype=bool)
+    if tdtype == "object":
+        return np.array([bool(v) for v in tg], dtype=object)
+    if tdtype in ("boolean", "Int64"):
+        import pandas as pd
+        return pd.array([bool(v) for v in tg], dtype="boolean") if tdtype == "boolean" else pd.array([int(v) for v in tg], dtype="Int64")
+    if tdtype.startswith("float"):
+        return np.array([float(v) if v or not negzero else -0.0 for v in tg], dtype=tdtype)
+    return np.array([int(v) for v in tg], dtype=tdtype)
 
 
 def _impl_labels(c):
     import numpy as np
     import pandas as pd
     from mokapot import dataset
-    sc = np.array(c["scores"], dtype=float)
-    tg = np.array([bool(v) for v in c["labels"]], dtype=bool)
-    thr = float(c["thr"])
     via = c["via"]
-    if via == "linear" and (all(tg) or not any(tg)):
-        via = "_update_labels"   # LinearPsmDataset needs both targets and decoys
+    scont, tcont, tdtype = c.get("scont", "array"), c.get("tcont", "array"), c.get("tdtype", "bool")
+    if via in _OLD_VIA:
+        scont, tcont, tdtype = _OLD_VIA[via]
+        via = "_update_labels"
+    n = len(c["scores"])
+    tg = [bool(v) for v in c["labels"]]
+    desc = c["desc"]
+    call = c.get("call", "pos")
+
+    def mk_scores(values):
+        a = _layout(np.array(values, dtype=c.get("sdtype", "float64")), c.get("layout"))
+        if scont == "series":
+            return pd.Series(a, index=_index(c.get("sindex"), len(a), 1))
+        return a
+
+    def mk_thr(thr):
+        if thr is None:
+            return None
+        ty = c.get("thrtype", "float")
+        if ty == "int":
+            return int(Fraction(thr))
+        if ty == "np.float64":
+            return np.float64(float(thr))
+        return float(thr)
+
     if via == "_update_labels":
-        r = dataset._update_labels(sc, tg, thr, c["desc"])
-    elif via == "series":
-        r = dataset._update_labels(pd.Series(sc), pd.Series(tg), thr, c["desc"])
-    elif via == "series-int":         # the label column of a table as pandas reads it: 0/1 integers
-        r = dataset._update_labels(pd.Series(sc), pd.Series([int(v) for v in tg]), thr, c["desc"])
-    elif via == "series-float":
-        r = dataset._update_labels(pd.Series(sc), pd.Series([float(v) for v in tg]), thr, c["desc"])
-    elif via == "array-int":          # the labellings tdc itself accepts: 0/1 integers, 0.0/1.0 floats
-        r = dataset._update_labels(sc, np.array([int(v) for v in tg]), thr, c["desc"])
-    elif via == "array-float":
-        r = dataset._update_labels(sc, np.array([float(v) for v in tg]), thr, c["desc"])
+        tv = _target_values(tg, tdtype, c.get("negzero"))
+        if tcont == "series":
+            targets = pd.Series(tv, index=_index(c.get("tindex"), n, 2))
+        else:
+            targets = _layout(tv, c.get("layout"))
+
+        def run(scores, thr, d, form):
+            thr = mk_thr(thr)
+            if thr is None:
+                if form == "nodesc":
+                    return dataset._update_labels(scores, targets)
+                return dataset._update_labels(scores=scores, targets=targets, desc=d)
+            if form == "nodesc":
+                return dataset._update_labels(scores, targets, thr)
+            if form == "kw":
+                return dataset._update_labels(scores=scores, targets=targets, eval_fdr=thr, desc=d)
+            return dataset._update_labels(scores, targets, thr, d)
     else:
-        n = len(sc)
-        df = pd.DataFrame({"target": tg, "spectrum": list(range(n)), "peptide": ["P%d" % j for j in range(n)],
-                           "protein": ["X"] * n, "f1": sc})
-        ds = dataset.LinearPsmDataset(df, target_column="target", spectrum_columns="spectrum",
-                                      peptide_column="peptide", protein_column="protein",
-                                      feature_columns=None, copy_data=True)
-        r = ds._update_labels(sc, eval_fdr=thr, desc=c["desc"])
+        tcol = c.get("tcol", "target")
+        cols = {tcol: _target_values(tg, tdtype, c.get("negzero")), "spectrum": list(range(n)), "peptide": ["P%d" % j for j in range(n)],
+                "protein": ["X"] * n, "f1": [float(v) for v in c["scores"]]}
+        for e in range(c.get("extra_cols", 0)):
+            cols["f%d" % (e + 2)] = [float((j * 7 + e) % 5) for j in range(n)]
+        names = list(cols)
+        k = c.get("colorder", 0)
+        if k:
+            import random
+            random.Random(k).shuffle(names)
+        df = pd.DataFrame({nm: cols[nm] for nm in names}, index=_index(c.get("dfindex"), n, 3))
+        both = any(tg) and not all(tg)
+        ds = dataset.LinearPsmDataset(df, target_column=tcol, spectrum_columns="spectrum", peptide_column="peptide",
+                                      protein_column="protein", feature_columns=None,
+                                      copy_data=c.get("copy_data", True), enforce_checks=c.get("enforce", both))
+
+        def run(scores, thr, d, form):
+            thr = mk_thr(thr)
+            if thr is None:
+                if form == "nodesc":
+                    return ds._update_labels(scores)
+                return ds._update_labels(scores, desc=d)
+            if form == "nodesc":
+                return ds._update_labels(scores, thr)
+            if form == "kw":
+                return ds._update_labels(scores=scores, eval_fdr=thr, desc=d)
+            return ds._update_labels(scores, thr, d)
+
+    for h in c.get("history", []):           # earlier calls on the same label object / dataset
+        try:
+            run(mk_scores(h["scores"]), h["thr"], h["desc"], "kw")
+        except Exception:
+            pass
+    if call == "nodesc":
+        assert desc is True
+    scores = mk_scores(c["scores"])
+    r = run(scores, c.get("thr"), desc, call)
+    hold = c.get("hold")
+    if hold == "again":
+        r = run(scores, c.get("thr"), desc, call)
+    elif hold == "later-call":
+        for hs, hd in ((list(reversed(c["scores"])), desc), (c["scores"], not desc)):
+            try:
+                run(mk_scores(hs), "0.3", hd, "kw")
+            except Exception:
+                pass
     out = []
-    for v in r:
+    for v in _one_dim(r):
         fv = float(v)
         if fv != int(fv):
             raise ValueError("non-integer label")
@@ -299,10 +889,56 @@ def _impl_labels(c):
     return out
 
 
-def impl(c):
+def _strip(c):
+    return {k: v for k, v in c.items() if k != "tags"}
+
+
+def _ser(r):
+    if r[0] == "ok":
+        return ["ok", [[v.numerator, v.denominator] if isinstance(v, Fraction) else v for v in r[1]]]
+    return [r[0], r[1]]
+
+
+def _deser(r):
+    if r[0] == "ok":
+        return ("ok", [Fraction(v[0], v[1]) if isinstance(v, list) else v for v in r[1]])
+    return (r[0], r[1])
+
+
+def impl_here(c):
     if c["fn"] == "tdc":
         return call_impl(_impl_tdc, c)
     return call_impl(_impl_labels, c)
+
+
+_NOJIT_RESULTS = {}
+
+
+def _run_nojit(cases):
+    """run cases in a fresh interpreter with NUMBA_DISABLE_JIT=1 (same PYTHONPATH: the implementation under test)"""
+    env = dict(os.environ, NUMBA_DISABLE_JIT="1")
+    p = subprocess.run([sys.executable, "-W", "ignore", "-m", "harness.c01_worker"], cwd=str(lib.VERIF), env=env,
+                       input=json.dumps([_strip(c) for c in cases]).encode(), stdout=subprocess.PIPE, stderr=subprocess.PIPE,
+                       timeout=1800)
+    if p.returncode != 0:
+        raise RuntimeError("c01_worker failed: " + p.stderr.decode(errors="replace")[-400:])
+    res = json.loads(p.stdout.decode().strip().split("\n")[-1])
+    if not res.get("nojit"):
+        raise RuntimeError("worker interpreter did not run with the JIT disabled")
+    return [_deser(r) for r in res["results"]]
+
+
+def impl(c):
+    if c.get("nojit"):
+        h = lib.stable_hash(_strip(c))
+        if h not in _NOJIT_RESULTS and _NOJIT_CASES:
+            batch = list(_NOJIT_CASES)
+            for cc, r in zip(batch, _run_nojit(batch)):
+                _NOJIT_RESULTS[lib.stable_hash(_strip(cc))] = r
+        if h not in _NOJIT_RESULTS:
+            _NOJIT_RESULTS[h] = _run_nojit([c])[0]
+        return _NOJIT_RESULTS[h]
+    return impl_here(c)
 
 
 def _close(a, b):
@@ -321,9 +957,7 @@ def same(c, m, i):
     return list(m[1]) == list(i[1])
 
 
-def nontrivial(c):
-    if "malformed" in c.get("tags", []):
-        return True
+def _ties_or_inversion(c):
     sc, lab = c["scores"], c["labels"]
     if len(set(sc)) < len(sc):
         return True
@@ -336,6 +970,21 @@ def nontrivial(c):
         elif seen_decoy:
             return True
     return False
+
+
+def nontrivial(c):
+    if "malformed" in c.get("tags", []):
+        return True
+    if not _ties_or_inversion(c):
+        return False
+    if c["fn"] == "labels":
+        if not _valid(c):
+            return False
+        tg = _targets(c)
+        thr = _thr_fraction(c)
+        qs = [q for q, t in zip(q_spec(exact_ints(c["scores"]), tg, c["desc"]), tg) if t]
+        return any(q <= thr for q in qs) and any(q > thr for q in qs)
+    return True
 
 
 def _targets(c):
@@ -356,6 +1005,14 @@ def _valid(c):
     return all(v in (0, 2) for v in c["labels"])
 
 
+def _how(c):
+    bits = [k + "=" + str(c[k]) for k in ("via", "call", "hold", "layout", "nojit", "sdtype", "ldtype", "scont", "tcont", "tdtype",
+                                          "sindex", "tindex", "dfindex", "tcol", "copy_data", "enforce", "thrtype") if c.get(k) is not None]
+    if c.get("history"):
+        bits.append("after %d earlier calls on the same object" % len(c["history"]))
+    return " [" + ", ".join(bits) + "]"
+
+
 def oracle(c, i):
     """the property itself on the implementation's output"""
     if not _valid(c):
@@ -363,41 +1020,135 @@ def oracle(c, i):
     tg = _targets(c)
     spec = q_spec(exact_ints(c["scores"]), tg, c["desc"])
     if i[0] != "ok":
-        return f"valid input rejected/crashed: {i!r}"
+        return f"valid input rejected/crashed: {i!r}" + _how(c)
     if c["fn"] == "tdc":
+        if len(i[1]) != len(spec):
+            return "wrong length" + _how(c)
         for j, (a, b) in enumerate(zip(i[1], spec)):
             if not _close(a, b):
-                return f"q[{j}] = {float(a)!r} but the defining formula gives {b} = {float(b)!r}"
-        if len(i[1]) != len(spec):
-            return "wrong length"
+                return f"q[{j}] = {float(a)!r} but the defining formula gives {b} = {float(b)!r}" + _how(c)
         return None
-    thr = Fraction(c["thr"])
+    thr = _thr_fraction(c)
     exp = [(-1 if not t else (1 if q <= thr else 0)) for q, t in zip(spec, tg)]
     if list(i[1]) != exp:
         j = [a != b for a, b in zip(i[1], exp)].index(True) if len(i[1]) == len(exp) else -1
         return (f"labels differ from 'targets with q<=thr -> +1, decoys -> -1, other targets -> 0' at row {j}: "
-                f"got {i[1][j] if j >= 0 else None}, expected {exp[j] if j >= 0 else None} (q={spec[j] if j >= 0 else None}, thr={c['thr']})")
+                f"got {i[1][j] if j >= 0 else None}, expected {exp[j] if j >= 0 else None} (q={spec[j] if j >= 0 else None}, "
+                f"thr={c.get('thr') if c.get('thr') is not None else 'default ' + DEFAULT_THR})" + _how(c))
     return None
 
 
+def _numba_refuses(c):
+    """the call stops with numba's own 'cannot type this array' errors (and with nothing else)"""
+    try:
+        _impl_tdc(c)
+    except NotImplementedError as e:          # float16: numba.core.typing raises NotImplementedError('float16')
+        return "float16" in str(e)
+    except Exception as e:
+        return type(e).__name__ == "TypingError" and type(e).__module__.startswith("numba")
+    return False
+
+
 def finding_key(c, m, i):
-    if c["fn"] != "labels" or not _valid(c) or i is None or i[0] != "ok":
+    if i is None or not _valid(c):
+        return None
+    if c["fn"] == "tdc":
+        # float scores in a dtype numba has no type for: tdc stops inside _fdr2qvalue instead of returning q-values
+        if c.get("sdtype") in NUMBA_HOSTILE and i[0] == "err" and not c.get("nojit") and _numba_refuses(c):
+            return KEY_NUMBA_DTYPE
+        return None
+    if i[0] != "ok":
         return None
     tg = _targets(c)
     spec = q_spec(exact_ints(c["scores"]), tg, c["desc"])
-    thr = Fraction(c["thr"])
+    thr = _thr_fraction(c)
     exp = [(-1 if not t else (1 if q <= thr else 0)) for q, t in zip(spec, tg)]
     if len(exp) != len(i[1]):
         return None
     bad = [j for j in range(len(exp)) if exp[j] != i[1][j]]
     if bad and all(spec[j] == thr and exp[j] == 1 and i[1][j] == 0 for j in bad):
-        return "labels:q-exactly-at-threshold-float32"
+        return KEY_F14
     return None
 
 
 def shrink(c):
     n = len(c["scores"])
-    if len(c["labels"]) != n:
+    if len(c["labels"]) != n or c.get("nojit"):      # (one interpreter start per candidate: not worth it for n <= 24)
         return
+    if c.get("history"):
+        yield dict(c, history=c["history"][1:])
     for j in range(n):
-        yield dict(c, scores=c["scores"][:j] + c["scores"][j + 1:], labels=c["labels"][:j] + c["labels"][j + 1:])
+        cc = dict(c, scores=c["scores"][:j] + c["scores"][j + 1:], labels=c["labels"][:j] + c["labels"][j + 1:])
+        if c.get("history"):
+            cc["history"] = [dict(h, scores=h["scores"][:j] + h["scores"][j + 1:]) for h in c["history"]]
+        yield cc
+
+
+# ----------------------------------------------------------------------------- checks outside the model
+def _big_case(rng, n, kind):
+    levels = {"dense-ties": max(2, n // 50), "few-ties": n * 4, "two-level": 2}[kind]
+    sc = [float(rng.randrange(levels)) for _ in range(n)]
+    order = sorted(range(n), key=lambda j: -sc[j])
+    lab = [0] * n
+    for r, j in enumerate(order):
+        lab[j] = 1 if rng.random() < (0.995 if r < n // 3 else 0.5) else 0
+    return sc, lab
+
+
+def _prefix_fail(c, n):
+    """the first n rows of a big case (to hand out a failing input the model can replay)"""
+    cc = dict(c, scores=c["scores"][:n], labels=c["labels"][:n])
+    r = impl_here(cc)
+    return cc if oracle(cc, r) else None
+
+
+def extra_checks(ctx):
+    """(a) the O(n log n) evaluation of the defining formula against the direct one; (b) inputs far larger than the
+    extracted model can sort (counts past 2^15 / 2^16 / 2^17), judged by the formula alone"""
+    fails, info = [], {}
+    rng = ctx.sub("wb-spec-selfcheck")
+    bad = 0
+    for _ in range(400):
+        n = rng.randint(1, 40)
+        lv = rng.randint(1, n)
+        sc = [rng.randrange(-lv, lv + 1) for _ in range(n)]
+        tg = [rng.random() < 0.6 for _ in range(n)]
+        d = rng.random() < 0.5
+        if q_spec(sc, tg, d) != q_spec_direct(sc, tg, d):
+            bad += 1
+    info["spec_selfcheck"] = {"compared": 400, "different": bad}
+    if bad:
+        fails.append({"what": "harness: the fast evaluation of the defining formula differs from the direct one"})
+    rng = ctx.sub("wb-big")
+    sizes = [20000, 33000, 40000, 66000, 70000, 131100] if ctx.thorough else [33000, 70000]
+    n_eval = 0
+    for n in sizes:
+        for kind in (("dense-ties", "few-ties", "two-level") if ctx.thorough else ("dense-ties", "few-ties")):
+            sc, lab = _big_case(rng, n, kind)
+            desc = rng.random() < 0.5
+            if not desc:
+                sc = [-s for s in sc]
+            sd = rng.choice(["float64", "float32", "int32"])
+            if sd == "int32":
+                sc = [int(s) for s in sc]
+            lk = rng.choice(["bool", "int", "float"])
+            probes = [_tdc_case(sc, [v * (2 if lk == "float" else 1) for v in lab], desc, lk, sd, "tdc",
+                                call="kw", tags=("wb-big", kind, f"n={n}")),
+                      _lab_case(sc, lab, desc, rng.choice([None, "0.01", "0.05", "0.001"]), rng.choice(["_update_labels", "linear"]),
+                                ["wb-big", kind, f"n={n}"], sdtype=sd, scont=rng.choice(["array", "series"]),
+                                tcont=rng.choice(["array", "series"]), tdtype=rng.choice(["bool", "int64", "uint8"]), call="kw")]
+            for c in probes:
+                r = impl_here(c)
+                n_eval += 1
+                msg = oracle(c, r)
+                if msg:
+                    small = None
+                    for m in (50, 200, 800, 1500):
+                        small = _prefix_fail(c, m)
+                        if small:
+                            break
+                    fails.append({"what": f"n={n} ({kind}, {c['fn']}): " + msg,
+                                  "failing_input": small if small else {"note": "input too large to store; regenerate with "
+                                                                        f"ctx.sub('wb-big') n={n} kind={kind}", "fn": c["fn"]}})
+    info["big_inputs_judged_by_the_formula"] = {"sizes": sizes, "evaluations": n_eval}
+    return fails, info
